@@ -2,7 +2,7 @@
 from __future__ import annotations
 
 LEX = ["def", "salt", "splitters", "if", "else", "else if", "return", "weighted", "and", "or", "not", "in", "not in",
-       "==", "!=", ">", "<", ">=", "<=", "(", ")", "{", "}", ",", ":", "-", "x", "1", "2.5", '"s"', "'t'"]  # fmt: skip
+       "==", "!=", ">", "<", ">=", "<=", "(", ")", "{", "}", ",", ":", "-", "x", "1", "2.5", '"s"', "'t'", "notin", "isnot", "andnot", "ifnot", "0", "00", "0.0", '""']  # fmt: skip
 ILLEGAL = ["=", ".", ";", "@", "$", "?", "!", "&", "|", "~", "[", "]", "\\", "#", "%", "^", "*", "/", "+", '"', "'",
            "\ufeff", "\u200b", "é", "—", "\u2060", "\x00", "\x7f", "\u00ad", "λ", "ı", "İ", "ſ", "\u212a", "ﬁ", "Ω", "\u00b5", "ª", "²", "\u0301", "\x08", "\x1b"]
 JUNK = ["x", "1", "def", "}", "{", "garbage garbage", "def x {", "return", ";", '"s"', "def a { return 1 weighted 1 }",
